@@ -19,6 +19,10 @@
    modelled (it can only remove a value whose pytd type JoinTypes would de-duplicate anyway); the lazily
    loaded instance_type_parameters of an Instance of a ParameterizedClass are materialised when the instance
    is created ([VPInstance]).  Classes are identified by numbers; [arity] is the length of a class's template.
+   Not modelled (outside the type-expression fragment; covered by the end-to-end oracle only): TypeParameter /
+   ParamSpec / Concatenate, Literal, Annotated, LateType, typing.ClassVar, TypedDict / fiddle, the Unknown instance
+   of builtins.property, the `seen` guard for self-containing instances, OutputMode.DETAILED, binding
+   visibility (FilteredData), and every Optimize pass (the model ends at the AST handed to optimize.Optimize).
 *)
 From Coq Require Import List Bool NArith Arith.
 Import ListNotations.
